@@ -108,7 +108,7 @@ func H_C16_echo_scalar() {
 
 // H_C16_args: missing or unused arguments and $0 are errors, not panics.
 func H_C16_args() {
-	c := verif.Choose("case", 6)
+	c := verif.Choose("case", 10)
 	var out string
 	var err error
 	panicked := false
@@ -131,6 +131,14 @@ func H_C16_args() {
 			out, err = SanitizeSQL("SELECT $1 FROM dual")
 		case 5:
 			out, err = SanitizeSQL("SELECT $1, $1 FROM dual", "a")
+		case 6:
+			out, err = SanitizeSQL("SELECT $1 AS a, $1 AS b FROM dual", "x", "y")
+		case 7:
+			out, err = SanitizeSQL("SELECT $2, $2, $2 FROM dual", "x", "y")
+		case 8:
+			out, err = SanitizeSQL("SELECT $1, $3 FROM dual", "x", "y", "z")
+		case 9:
+			out, err = SanitizeSQL("SELECT $10 FROM dual", "a", "b")
 		}
 	}()
 	verif.Assert(!panicked, "no-panic")
